@@ -62,11 +62,11 @@ const (
 	avRowElem
 	avTuple
 	avRowFieldPtr // address of a field of a local copy of a table entry
-	avRecv     // the *lexer receiver
-	avFieldPtr // &l.field
-	avCell     // pointer to a local variable
-	avStrAt    // l.input[current:]
-	avTok      // a token value
+	avRecv        // the *lexer receiver
+	avFieldPtr    // &l.field
+	avCell        // pointer to a local variable
+	avStrAt       // l.input[current:]
+	avTok         // a token value
 	avOpaque
 	avTablePtr // &symbolsN[index]
 	avErrNil
